@@ -63,7 +63,9 @@ def stiff_stubs(ctx):
     return stubs
 
 
-def make_bay(ctx, cfg):
+def make_bay(ctx, cfg, stacks=None):
+    """stacks: {stiffener index: (bstack, fstack)} list objects to re-use (the laminate stub is keyed by the stack object, so a
+    twin bay gets the same symbolic laminates)"""
     from compmech.stiffpanelbay import StiffPanelBay
     bay = StiffPanelBay()
     bay.a, bay.b = Sym(Fraction(cfg.get('a', '3/2'))), Sym(Fraction(cfg.get('b', '4/5')))
@@ -88,18 +90,54 @@ def make_bay(ctx, cfg):
     for p in bay.panels:
         p._verif_lam = lam
     comps = []
+    ren = cfg.get('rename', {})                 # C20: a twin built from the start with the re-defined values
+    SV = lambda name: ctx.V(ren.get(name, name))
     for kind, spec in cfg.get('stiffeners', []):
         ys = cuts[1 + len(comps)]         # a stiffener sits on the boundary between two skin panels
-        common = dict(bb=ctx.V('bb%d' % len(comps)), bstack=[0], bplyts=[ctx.V('bt%d' % len(comps))], blaminaprops=[(1., 1., 0.3)])
-        fl = dict(bf=ctx.V('bf%d' % len(comps)), fstack=[0, 0], fplyts=[ctx.V('ft%d' % len(comps)), ctx.V('ft%d' % len(comps))], flaminaprops=[(1., 1., 0.3)] * 2)
+        bst, fst = stacks.get(len(comps), ([0], [0, 0])) if stacks else ([0], [0, 0])
+        common = dict(bb=SV('bb%d' % len(comps)), bstack=bst, bplyts=[SV('bt%d' % len(comps))], blaminaprops=[(1., 1., 0.3)])
+        fl = dict(bf=SV('bf%d' % len(comps)), fstack=fst, fplyts=[SV('ft%d' % len(comps)), SV('ft%d' % len(comps))], flaminaprops=[(1., 1., 0.3)] * 2)
+        mu_s = SV('mu_s%d' % len(comps))      # the stiffener's own density, different from the skin's
         if kind == 'B1':
-            s = bay.add_bladestiff1d(ys, mu=bay.mu, **(common if spec.get('base') else {}), **fl)
+            s = bay.add_bladestiff1d(ys, mu=mu_s, **(common if spec.get('base') else {}), **fl)
         elif kind == 'B2':
-            s = bay.add_bladestiff2d(ys, mu=bay.mu, **(common if spec.get('base') else {}), mf=spec['mf'], nf=spec['nf'], **fl)
+            s = bay.add_bladestiff2d(ys, mu=mu_s, **(common if spec.get('base') else {}), mf=spec['mf'], nf=spec['nf'], **(fl if spec.get('flange', True) else {}))
         else:
-            s = bay.add_tstiff2d(ys, mu=bay.mu, mb=spec['mb'], nb=spec['nb'], mf=spec['mf'], nf=spec['nf'], **common, **fl)
+            s = bay.add_tstiff2d(ys, mu=mu_s, mb=spec['mb'], nb=spec['nb'], mf=spec['mf'], nf=spec['nf'], **common, **fl)
+        s._verif_stacks = (common['bstack'], fl['fstack'])
+        s._verif_spec = dict(kind=kind, ys=ys, mu=mu_s, bb=common['bb'] if (kind == 'T2' or spec.get('base')) else None, bf=fl['bf'],
+                             bplyts=common['bplyts'], fplyts=fl['fplyts'], spec=spec)
         comps.append((kind, s))
     return bay, comps
+
+
+def wiring_obligations(bay, comps):
+    """the component objects a stiffener builds carry the definition it was given: density, spans, series orders, strip"""
+    obs = []
+    for q, (kind, s) in enumerate(comps):
+        sp = s._verif_spec
+        tag = '%s#%d' % (kind, q)
+        exp = {}
+        if kind in ('B1', 'B2') and sp['bb'] is not None:
+            exp['base'] = dict(mu=sp['mu'], a=bay.a, b=bay.b, m=bay.m, n=bay.n, y1=sp['ys'] - sp['bb'] / 2, y2=sp['ys'] + sp['bb'] / 2)
+        if kind == 'T2':
+            exp['base'] = dict(mu=sp['mu'], a=bay.a, b=sp['bb'], m=sp['spec']['mb'], n=sp['spec']['nb'])
+        if kind == 'T2' or (kind == 'B2' and sp['spec'].get('flange', True)):
+            exp['flange'] = dict(mu=sp['mu'], a=bay.a, b=sp['bf'], m=sp['spec']['mf'], n=sp['spec']['nf'])
+        if hasattr(s, 'mu'):
+            obs.append(('stiffener-definition[%s.mu]' % tag, Sym.lift(s.mu), Sym.lift(sp['mu'])))
+        for part, want in exp.items():
+            comp = getattr(s, part, None)
+            if comp is None:
+                obs.append(('stiffener-definition[%s.%s exists]' % (tag, part), Sym.lift(0), Sym.lift(1)))
+                continue
+            for nm, v in want.items():
+                got = getattr(comp, nm, None)
+                if got is None:
+                    obs.append(('stiffener-definition[%s.%s.%s set]' % (tag, part, nm), Sym.lift(0), Sym.lift(1)))
+                else:
+                    obs.append(('stiffener-definition[%s.%s.%s]' % (tag, part, nm), Sym.lift(got), Sym.lift(v)))
+    return obs
 
 
 def expected_layout(bay, comps):
@@ -108,7 +146,7 @@ def expected_layout(bay, comps):
     rng = {}
     for kind, s in comps:
         if kind == 'B2':
-            size = 3 * s.flange.m * s.flange.n
+            size = 3 * s.flange.m * s.flange.n if s.flange is not None else 0
             rng[id(s)] = {'start': pos, 'flange': (pos, pos + size)}
             pos += size
     for kind, s in comps:
@@ -157,6 +195,7 @@ def build(cfg, values=None):
                 H = finalize_symmetric_matrix(tot).todict()
                 for k in sorted(set(K) | set(H)):
                     obs.append(('%s-sum[%d,%d]' % (which, k[0], k[1]), K.get(k, 0), H.get(k, 0)))
+                obs += wiring_obligations(bay, comps)
             elif variant == 'bay-fields':
                 c = np.zeros(total, dtype=object)
                 for k in range(total):
@@ -174,7 +213,7 @@ def build(cfg, values=None):
                     obs.append(('skin-w[%d]' % q, w[q], PW.field(ctx.atoms, S, c, 'w', 0, 0, xi, eta)))
                     obs.append(('skin-phix[%d]' % q, phx[q], -PW.field(ctx.atoms, S, c, 'w', 1, 0, xi, eta)))
                 for si, (kind, s) in enumerate(comps):
-                    if kind == 'B1':
+                    if kind == 'B1' or (kind == 'B2' and s.flange is None):
                         continue
                     for region in (('base', 'flange') if kind == 'T2' else ('flange',)):
                         comp_panel = getattr(s, region)
@@ -301,6 +340,7 @@ def configs(tier, seed):
         'T2+T2-unequal': [T(1, 1, 1, 2), T(2, 1, 2, 1)],
         'B2+B2': [B2(1, 2), B2(2, 1, True)],
         'B1+B1base': [B1(), B1(True)],
+        'B2base-only+B2': [('B2', dict(mf=1, nf=1, base=True, flange=False)), B2(1, 2)],
     }
     if not quick:
         bays['B2+B2+T2+T2'] = [B2(1, 1), B2(1, 2), T(1, 1, 1, 1), T(1, 2, 1, 1)]
@@ -353,6 +393,41 @@ def main():
             r['cfg'].setdefault('n', 1)
     kprop.handle(run, res, build, 'entries differ from the sum of the component results at their ranges')
     return run.finish()
+
+
+def real_exception(cfg):
+    """the same kind of bay on the compiled build (floats): does the call raise?"""
+    if not cfg.get('variant', '').startswith('bay-'):
+        return None
+    from compmech.stiffpanelbay import StiffPanelBay
+    lp = (142.5e9, 8.7e9, 0.28, 5.1e9, 5.1e9, 5.1e9)
+    bay = StiffPanelBay()
+    bay.a, bay.b, bay.m, bay.n, bay.stack, bay.plyt, bay.laminaprop, bay.mu = 1., 0.5, 4, 4, [0, 90, 0], 1e-3, lp, 1600.
+    st = cfg.get('stiffeners', [])
+    cuts = [0.] + [0.5 * (k + 1) / (len(st) + 1) for k in range(len(st))] + [0.5]
+    try:
+        for k in range(len(cuts) - 1):
+            bay.add_panel(cuts[k], cuts[k + 1])
+        for k, (kind, spec) in enumerate(st):
+            ys = cuts[k + 1]
+            common = dict(bb=0.05, bstack=[0, 90], bplyts=[1e-3] * 2, blaminaprops=[lp] * 2)
+            fl = dict(bf=0.03, fstack=[0, 0], fplyts=[1e-3] * 2, flaminaprops=[lp] * 2)
+            if kind == 'B1':
+                bay.add_bladestiff1d(ys, **(common if spec.get('base') else {}), **fl)
+            elif kind == 'B2':
+                bay.add_bladestiff2d(ys, **(common if spec.get('base') else {}), mf=4, nf=4, **(fl if spec.get('flange', True) else {}))
+            else:
+                bay.add_tstiff2d(ys, mb=4, nb=4, mf=4, nf=4, **common, **fl)
+        bay.get_size()
+        which = cfg.get('which')
+        if which in ('k0', 'kG0', 'kM'):
+            getattr(bay, 'calc_' + which)(silent=True)
+        if cfg['variant'] == 'bay-fext':
+            bay.forces_skin.append([0.3, 0.2, 1., 2., 3.])
+            bay.calc_fext(silent=True)
+    except Exception as e:
+        return '%s: %s' % (type(e).__name__, e)
+    return None
 
 
 def real_typeerror(cfg):
